@@ -26,12 +26,14 @@ package environment
 //@   modifies e.local, e.local[*]
 //@   ensures @C06 addscope.len:  len(e.local) == old(len(e.local)) + 1
 //@   ensures @C06 addscope.keep: forall i in 0..old(len(e.local)) :: e.local[i] == old(e.local[i])
+//@   ensures @C06 addscope.count: count(scopes) == old(count(scopes)) + 1
 //@   ensures @C06 addscope.new:  fresh(e.local[old(len(e.local))]) && e.local[old(len(e.local))] != nil && len(e.local[old(len(e.local))]) == 0
 //@   panics never
 
 //@ func (e *Environment) RemoveScope() (err error)
 //@   modifies e.local
 //@   ensures @C06 removescope.some: old(len(e.local)) > 0 ==> err == nil && e.local === old(e.local)[:old(len(e.local))-1]
+//@   ensures @C06 removescope.count: count(scopes) >= old(count(scopes)) && (old(len(e.local)) > 0 ==> count(scopes) == old(count(scopes)) + 1)
 //@   ensures @C06 removescope.none: old(len(e.local)) == 0 ==> err != nil && e.local === old(e.local)
 //@   panics never
 
